@@ -8,7 +8,10 @@ ops:
   req <path> <method> <target> <host> <nh> (<name>=<value>)* <bmode> <blen> <bseed>
       <status> <rmode> <rlen> <rseed> <nrh> (<name>=<value>)*
         → `up m=.. uri=.. host=.. fwd=.. h=[..] body=<n>:ok down s=.. h=[..] body=<n>:ok`
-  fail <path> <kind>            → `st=<status> msg=<hex> hang=0 [trunc=<0|1>]`
+  fail <path> <kind>            → `st=<status> msg=<hex> hang=0`, or `aborted=1 hang=0` for closemid-*
+
+paths: `local` (one proxy node), `fwd` (two nodes), `agent` (agent/reverseproxy.Server: the same
+timeout/error-handler code, `NewSingleHostReverseProxy`, no piko marker)
 
 The prediction is the end-to-end preservation rule: method, request target, Host and body are
 echoed; the header list is `Http.visible` of the client's headers (`Http.visibleResp` for the
@@ -54,17 +57,22 @@ def takeKVs : Nat → List String → Option (Headers × List String)
 
 def failSituation (T : Nat) (path kind : String) : Option (Situation × Option Framing) :=
   let base : Situation := { endpointID := "e", selected := true, timeoutMs := T, up := .responds 0 200 }
+  let notAgent := path ≠ "agent"
   match kind with
-  | "noendpoint" => some ({ base with endpointID := "" }, none)
-  | "noupstream" => some ({ base with selected := false }, none)
+  | "noendpoint" => if notAgent then some ({ base with endpointID := "" }, none) else none
+  | "noupstream" => if notAgent then some ({ base with selected := false }, none) else none
   | "noupstream-remote" =>
     -- the first node selects the remote node; that node has no upstream and answers 502 itself,
     -- which the first node relays
     if path = "fwd" then some ({ base with selected := false }, none) else none
-  | "dialerr" => some ({ base with up := .dialError }, none)
+  | "dialerr" => if notAgent then some ({ base with up := .dialError }, none) else none
   | "deadnode" => if path = "fwd" then some ({ base with up := .dialError }, none) else none
   | "closebefore" => some ({ base with up := .closedBeforeResponse }, none)
-  | "closemid-cl" => some (base, some .contentLength)
+  | "closemid-cl" =>
+    -- forwarded path: the second node aborts before it has flushed a byte of the small
+    -- Content-Length response, so the first node sees a connection closed before the response
+    if path = "fwd" then some ({ base with up := .closedBeforeResponse }, none)
+    else some (base, some .contentLength)
   | "closemid-chunked" => some (base, some .chunked)
   | "slow" => if T = 0 then none else some ({ base with up := .responds (3 * T) 200 }, none)
   | "slow-upgrade" =>
@@ -93,7 +101,8 @@ def step (s : St) : List String → St × String
             let reqH := canonHeaders hs
             let epHeader := Headers.get reqH "x-piko-endpoint"
             let hostStr := latin1 (hexBytes host)
-            let ep := if epHeader ≠ "" then epHeader else (hostStr.splitOn ".").headD ""
+            let ep := if path = "agent" then "agent"
+                      else if epHeader ≠ "" then epHeader else (hostStr.splitOn ".").headD ""
             let sit : Situation :=
               { endpointID := ep, selected := true, timeoutMs := s.timeoutMs,
                 upgrade := Headers.get reqH "upgrade", up := .responds 0 st }
@@ -102,15 +111,15 @@ def step (s : St) : List String → St × String
             let sentBody := if bmode = "none" then 0 else bl
             let noBody := method = "HEAD" || st = 204 || st = 304 || rmode = "none"
             let gotBody := if noBody then 0 else rl
-            let knownEmpty := rmode = "cl" && (rl = 0 || method = "HEAD")
             let r0 : Request :=
               { method := method, rawPath := target, rawQuery := "", host := hostStr, headers := reqH, body := [] }
-            let seen := hops (if path = "fwd" then 2 else 1) ep r0
+            let seen := if path = "agent" then { r0 with headers := removeHopByHop reqH }
+                        else hops (if path = "fwd" then 2 else 1) ep r0
             let up := "up m=" ++ seen.method ++ " uri=" ++ seen.rawPath ++ " host=" ++ tok seen.host ++
               " fwd=" ++ tok (joinWith "|" (seen.headers.values "x-piko-forward")) ++
               " h=" ++ showHeaders (visible seen.headers) ++ " body=" ++ toString sentBody ++ ":ok"
             let down := " down s=" ++ toString ans.status ++ " h=" ++
-              showHeaders (visibleResp st knownEmpty (canonHeaders rhs)) ++ " body=" ++ toString gotBody ++ ":ok"
+              showHeaders (visibleResp (canonHeaders rhs)) ++ " body=" ++ toString gotBody ++ ":ok"
             (s, up ++ down)
           | none => (s, "bad-op")
         | _, _, _, _ => (s, "bad-op")
@@ -123,7 +132,8 @@ def step (s : St) : List String → St × String
       let ans := respond sit
       let out := "st=" ++ toString ans.status ++ " msg=" ++ tok (ownMessage sit) ++ " hang=0"
       match fr with
-      | some f => (s, out ++ " trunc=" ++ boolStr (truncationDetectable f))
+      | some f =>
+        (s, "aborted=" ++ boolStr (onUpstreamDeathMidBody f == ClientView.aborted) ++ " hang=0")
       | none => (s, out)
   | _ => (s, "bad-op")
 
